@@ -51,7 +51,7 @@ def setups(rng, tier):
                                 if dash != "AUTO" and "_" not in name:
                                     continue
                                 for neg in (None, ("np", "--no-"), ("np", "--disable_"), ("np", "-x"), ("nopt", "--silent"),
-                                            ("nopt", "quiet"), ("nopt", "q"), ("nopt", "-s")):
+                                            ("nopt", "quiet"), ("nopt", "q"), ("nopt", "-s"), ("nopt", "nq")):   # "nq": exactly two characters, no dashes (mutant: `> 1` -> `> 2`)
                                     if neg and neg[0] == "nopt" and gen != "FLAT" and layout != "single":
                                         continue  # explicit negatives carry only the *conflict* prefix (see DESIGN C12)
                                     out.append(dict(name=name, default=default, layout=layout, cr=cr, gen=gen, nm=nm,
